@@ -125,6 +125,9 @@ def _simple_shape(h):
         return "stmt"
     if len(rets) == 1 and rets[0] is body[-1]:
         return "value" if rets[0].value is not None else "stmt"
+    # a statement helper with guard clauses: bare returns under if-nesting only
+    if all(r.value is None for r in rets) and _bare_returns_under_ifs(body):
+        return "stmt"
     # several returns, all of them in tail position of if/else arms (guard clauses): convertible to assignments
     if all(r.value is not None for r in rets) and _tail_convertible(body):
         return "tail"
@@ -223,6 +226,37 @@ def _always_returns(stmts):
 
 def _has_return(st):
     return any(isinstance(n, ast.Return) for n in ast.walk(st))
+
+
+def _bare_returns_under_ifs(stmts):
+    for st in stmts:
+        if isinstance(st, ast.Return):
+            continue
+        if _has_return(st):
+            if not isinstance(st, ast.If) or not _bare_returns_under_ifs(st.body) or not _bare_returns_under_ifs(st.orelse):
+                return False
+    return True
+
+
+def _unguard(stmts):
+    """bare `return`s of a statement helper removed: the code behind a returning `if` goes into the arms that fall through"""
+    out = []
+    for i, st in enumerate(stmts):
+        if isinstance(st, ast.Return):
+            return out or [ast.Pass()]
+        if isinstance(st, ast.If) and _has_return(st):
+            rest = stmts[i + 1:]
+            body_ret, else_ret = _always_returns(st.body), _always_returns(st.orelse)
+            n_fall = (0 if body_ret else 1) + (0 if else_ret else 1)
+
+            def cont():
+                return copy.deepcopy(rest) if n_fall > 1 else list(rest)
+            body = _unguard(list(st.body) + ([] if body_ret else cont()))
+            orelse = _unguard(list(st.orelse) + ([] if else_ret else cont()))
+            out.append(ast.If(test=st.test, body=body or [ast.Pass()], orelse=[] if (len(orelse) == 1 and isinstance(orelse[0], ast.Pass)) else orelse))
+            return out
+        out.append(st)
+    return out
 
 
 def _tail_convertible(stmts):
@@ -514,8 +548,8 @@ class _Inliner:
             ret = adopt if isinstance(adopt, str) else "ret__%d" % self.uid
             body = _searchify(body, ret)
             value = ast.Name(id=ret, ctx=ast.Load())
-        elif body and isinstance(body[-1], ast.Return):
-            body = body[:-1]
+        elif any(isinstance(n, ast.Return) for b_ in body for n in ast.walk(b_)):
+            body = _unguard(body)
         stmts = pre + body
         for s in stmts:
             ast.fix_missing_locations(s)
